@@ -13,7 +13,8 @@ TARGETS = [('bounded', t) for t in (
     'edits.AbstractEdit.bounds', 'edits.ConstantCostEdit.tighten_bounds',
     'graphtage.KeyValuePairEdit.bounds', 'graphtage.KeyValuePairEdit.tighten_bounds',
     'sequences.FixedLengthSequenceEdit.tighten_bounds', 'bounds.repeat_until_tightened.wrapper',
-    'tree.Edit.has_non_zero_cost')] + [('xmledit', 'xml.XMLElementEdit.bounds'), ('xmledit', 'xml.XMLElementEdit.tighten_bounds')]
+    'tree.Edit.has_non_zero_cost')] + [('xmledit', 'xml.XMLElementEdit.bounds'), ('xmledit', 'xml.XMLElementEdit.tighten_bounds'),
+                                       ('multiset_tighten', 'multiset.MultiSetEdit.tighten_bounds')]
 TRUSTED = [
     'protocol B (never widens, sound, progress strict, False only when definitive, fuel decreases) is ASSUMED for '
     'sub-objects of unknown class and proved for the listed implementers',
@@ -25,7 +26,7 @@ ASSUMPTIONS = ['ranges are finite (the infinite case occurs only before the firs
 EXPLANATION = (
     "Deductive: the Bounded protocol (no widening, soundness w.r.t. a ghost final cost, strict progress on True, "
     "definitive on False, decreasing termination measure) is discharged from the real source for Range arithmetic, "
-    "constant-cost edits, KeyValuePairEdit, FixedLengthSequenceEdit (per-child form), the repeat_until_tightened "
+    "constant-cost edits, KeyValuePairEdit, FixedLengthSequenceEdit and MultiSetEdit.tighten_bounds (per-child form), the repeat_until_tightened "
     "wrapper and Edit.has_non_zero_cost, each assuming the protocol for its sub-objects. Bounded stand-in (labelled "
     "bounded, never counted as discharged): the same protocol installed as a run-time monitor on every class defining "
     "tighten_bounds (EditDistance, EditCollection, WeightedBipartiteMatcher, MultiSetEdit, IterativeTighteningSearch "
@@ -35,7 +36,21 @@ STEP_BUDGET = 20000
 
 
 def witnesses(func_result, ob, repo_root, tier):
-    return []
+    """Concrete inputs for an obligation of MultiSetEdit.tighten_bounds that is not discharged: mappings / multisets whose
+    automatically matched pairs need several refinement steps, driven step by step under the monitor."""
+    if 'MultiSetEdit' not in func_result['function']:
+        return []
+    docs = [{"a": "abcd", "b": [1, 2, 3], "c": {"x": "foo"}}, {"a": "abXd", "b": [1, 3, 4], "c": {"x": "fo", "y": 1}},
+            {"a": [[1, 2], "pq"], "b": "zzzz"}, {"a": [[1], "pqr", 3], "b": "zz", "d": None}, {"k": {"a": "abcd", "b": "efgh"}},
+            {"k": {"a": "abce", "b": "efg"}}]
+    out = []
+    for a in docs:
+        for b in docs:
+            for opt in (gt.OPTION_COMBOS[0], gt.OPTION_COMBOS[3]):
+                _, fails, _ = _run_pair((a, b, opt))
+                if fails:
+                    return fails[:1]
+    return out
 
 
 def replay(entry, repo_root):
